@@ -364,7 +364,9 @@ Definition last_update (s : state) (b : Z) : option update :=
 
 Definition do_create_update (s : state) (b user token n_jobs n_groups : Z) : state * res :=
   if negb ((0 <? n_jobs) || (0 <? n_groups)) then (s, assertion) else
-  match find (fun x => (u_batch x =? b) && (u_token x =? token)) (updates s) with
+  (* the existing update is looked up for the batch's owner only (JOIN batches ... AND batches.user = %s) *)
+  match (if match find_batch s b with Some bt => b_user bt =? user | None => false end
+         then find (fun x => (u_batch x =? b) && (u_token x =? token)) (updates s) else None) with
   | Some x => (s, ok [u_id x; u_start_group x; u_start_job x])
   | None =>
       match find_batch s b with
